@@ -84,7 +84,26 @@ def run(ctx):
     if mask is None:
         info["untranslatable"].append("const:CSI_MORE_SUBPARAM")
 
-    body = "namespace Tickit.Gen.Sgr\n"
+    # ------------------------------------------------------------------ leaf: convert_colour (src/term.c)
+    term = strip(src("src/term.c"))
+    lm = re.search(r"static\s+int\s+convert_colour\s*\(\s*int\s+index\s*,\s*int\s+colours\s*\)\s*\{\s*"
+                   r"if\s*\(\s*colours\s*(>=|>|<=|<)\s*(\d+)\s*\)\s*return\s+xterm256\s*\[\s*index\s*\]\s*\.\s*(as16|as8)\s*;\s*"
+                   r"(?:else\s+)?return\s+xterm256\s*\[\s*index\s*\]\s*\.\s*(as16|as8)\s*;\s*\}", term)
+    leaf = None
+    if lm:
+        op = {">=": "≥", ">": ">", "<=": "≤", "<": "<"}[lm.group(1)]
+        leaf = (f"def convertColourLeaf (index colours : Int) : Int :=\n"
+                f"  if colours {op} {lm.group(2)} then (Tickit.Gen.Palette.{lm.group(3)}.getD index.toNat 0 : Nat)\n"
+                f"  else (Tickit.Gen.Palette.{lm.group(4)}.getD index.toNat 0 : Nat)\n")
+        info.setdefault("leaves", []).append("convert_colour")
+    else:
+        info["untranslatable"].append("leaf:convert_colour")
+
+    body = "import Tickit.Gen.Palette\nnamespace Tickit.Gen.Sgr\n"
+    body += "/-- `convert_colour` of src/term.c, translated from its text (`convertColourLeafOk = false`: the function no longer has\n"
+    body += "    the shape `if(colours OP N) return xterm256[index].F; else return xterm256[index].G;` and nothing is claimed) -/\n"
+    body += f"def convertColourLeafOk : Bool := {'true' if leaf else 'false'}\n"
+    body += leaf if leaf else "def convertColourLeaf (_index _colours : Int) : Int := 0\n"
     body += "/-- capacity of `int params[N]` in `chpen` of src/termdriver-xterm.c -/\n"
     body += f"def paramsCap : Nat := {cap if cap is not None else 0}\n"
     body += f"def csiMoreSubparam : Nat := {mask if mask is not None else 0}\n"
